@@ -10,7 +10,9 @@ import concurrent.futures as cf
 import json
 import os
 import re
+import shutil
 import subprocess
+import tempfile
 import sys
 import time
 
@@ -38,11 +40,18 @@ def _env():
 def run_worker(prop, payload, timeout, mode='shard'):
     cmd = [sys.executable, '-m', 'omv.worker', prop, json.dumps(payload), mode]
     t0 = time.time()
+    # every temporary file of the worker (and of the children it starts) lives under one directory that is removed
+    # here whatever happens to the worker (watchdog kill included)
+    env = _env()
+    tmp = tempfile.mkdtemp(prefix='omv-%s-' % prop)
+    env['TMPDIR'] = tmp
     try:
-        p = subprocess.run(cmd, env=_env(), cwd=HERE, stdout=subprocess.PIPE, stderr=subprocess.PIPE,
+        p = subprocess.run(cmd, env=env, cwd=HERE, stdout=subprocess.PIPE, stderr=subprocess.PIPE,
                            timeout=timeout)
     except subprocess.TimeoutExpired:
         return {'shard': payload, 'error': 'watchdog %ss' % timeout, 'timeout': True}
+    finally:
+        shutil.rmtree(tmp, ignore_errors=True)
     out = p.stdout.decode('utf-8', 'replace')
     m = None
     for line in out.splitlines():
